@@ -140,14 +140,20 @@ PROPS["C05"] = dict(
 )
 
 PROPS["C06"] = dict(
-    modules=["Sth.Props.C01", "Sth.Props.C08", "Sth.Props.C05", "Sth.Props.C06W", "Sth.Props.C06H", "Sth.Props.C06I", "Sth.Props.C04"],
+    modules=["Sth.Props.C01", "Sth.Props.C08", "Sth.Props.C05", "Sth.Props.C06W", "Sth.Props.C06H", "Sth.Props.C06I", "Sth.Props.C04", "Sth.Props.C06F"],
     theorems=list(CORE_RL) + ["Sth.C05_linearizable", "Sth.C05_keys_do_not_interfere", "Sth.C05_freelist_exactly_once",
                               "Sth.C04_store_refines_map", "Sth.C06_relocate_split", "Sth.C06_relocation_window_invisible", "Sth.C06_window_reads_after_finish",
                               "Sth.C06_window_exactly_once_moved", "Sth.C06_window_put_survives", "Sth.C06_window_remove_stays_removed",
                               "Sth.C06_window_untouched_key_moved", "Sth.C06_window_unconditional_repoint_resurrects",
                               "Sth.C06_window_weak_compare_resurrects", "Sth.C06_refused_path_records_old_twice", "Sth.C06_window_example_hypotheses",
                               "Sth.C06_handover_split", "Sth.C06_handover_window_invisible", "Sth.C06_handover_flush_succeeds", "Sth.C06_handover_window_example",
-                              "Sth.C06_igc_free_verdict_stable", "Sth.C06_igc_late_mark_safe", "Sth.C06_igc_busy_verdict_not_stable"],
+                              "Sth.C06_igc_free_verdict_stable", "Sth.C06_igc_late_mark_safe", "Sth.C06_igc_busy_verdict_not_stable",
+                              "Sth.C06_igc_flush_never_frees_published", "Sth.C06_igc_flush_positions_live", "Sth.C06_igc_flush_collector_below_flush",
+                              "Sth.C06_igc_flush_free_verdict_stable", "Sth.C06_igc_flush_free_file_stable", "Sth.C06_igc_flush_closed_files_fixed",
+                              "Sth.C06_igc_flush_full_cycle_covers", "Sth.C06_igc_flush_lock_exclusive", "Sth.C06_igc_flush_lookup_total",
+                              "Sth.C06_igc_needs_flushlock", "Sth.C06_igc_free_scan_needs_flushlock", "Sth.C06_igc_flush_example", "Sth.C06_igc_flush_example_free_files",
+                              "Sth.C06_igc_flush_replayFrom_never_frees_published", "Sth.C06_igc_flush_replay_never_frees_published", "Sth.C06_igc_flush_replay_is_run",
+                              "Sth.C06_igc_flush_example_replay", "Sth.C06_igc_flush_write_order_perm"],
     runs=[dict(engine="sched", quick=500, thorough=20000, extra=["-profile", "c06"], nontrivial=["gc-overlaps-call", "collector-window", "flush-window"]),
           # the schedules in which the collectors run BETWEEN calls (every schedule of the statement includes them): the sequential engine
           # with both collectors over several cycles, byte-compared with the model; its directed corpus holds the multi-cycle histories
@@ -182,13 +188,18 @@ PROPS["C12"] = dict(
 )
 
 PROPS["C13"] = dict(
-    modules=["Sth.Props.C01", "Sth.Props.C08", "Sth.Props.C13", "Sth.Props.C13G", "Sth.Props.C13H", "Sth.Props.C13F"],
+    modules=["Sth.Props.C01", "Sth.Props.C08", "Sth.Props.C13", "Sth.Props.C13G", "Sth.Props.C13H", "Sth.Props.C13F", "Sth.Props.C13B"],
     theorems=list(CORE_RL) + ['Sth.C13_step', 'Sth.C13_current_is_current', 'Sth.C13_current_prefix', 'Sth.C13_step_overwrite', 'Sth.C13_step_remove', 'Sth.C13_step_new_key', 'Sth.C13_step_immutable', 'Sth.C13_step_same_value', 'Sth.C13_step_malformed', 'Sth.C13_step_remove_absent', 'Sth.C13_step_other', 'Sth.C13_recorded_not_current', 'Sth.C13_current_not_recorded', 'Sth.C13_exactly_once', 'Sth.C13_run', 'Sth.C13_file_well_formed', 'Sth.C13_gc_nothing_current_recorded', 'Sth.C13_gc_nothing_current_recorded_cid', 'Sth.C13_gc_consumes', 'Sth.C13_gc_pool_after', 'Sth.C13_gc_covered', 'Sth.C13_gc_exactly_once',
                                'Sth.C13_concurrent_handover_exactly_once', 'Sth.C13_concurrent_handover_global_fifo', 'Sth.C13_concurrent_handover_puts_of_programs',
                                'Sth.C13_concurrent_handover_nodup', 'Sth.C13_concurrent_handover_nothing_lost_at_quiescence', 'Sth.C13_concurrent_handover_order',
                                'Sth.C13_concurrent_handover_file_exists_when_unlocked', 'Sth.C13_concurrent_handover_flush_finds_file',
                                'Sth.C13_concurrent_handover_lock_exclusive', 'Sth.C13_handover_replay_exactly_once', 'Sth.C13_handover_replayFrom_exactly_once',
-                               'Sth.C13_handover_without_flushlock_loses', 'Sth.C13_handover_two_collectors_loses', 'Sth.C13_example_concurrent_handover', 'Sth.C13_example_replay'],
+                               'Sth.C13_handover_without_flushlock_loses', 'Sth.C13_handover_two_collectors_loses', 'Sth.C13_example_concurrent_handover', 'Sth.C13_example_replay',
+                               'Sth.C13_barrier_nothing_missed', 'Sth.C13_barrier_nothing_missed_gc_passes', 'Sth.C13_barrier_invariant', 'Sth.C13_barrier_apply_finds_all',
+                               'Sth.C13_barrier_lock_exclusive', 'Sth.C13_barrier_gc_passes_ordered', 'Sth.C13_barrier_applied_exactly', 'Sth.C13_barrier_applied_perm',
+                               'Sth.C13_barrier_applied_literal_counterexample', 'Sth.C13_barrier_needs_lock_wait', 'Sth.C13_barrier_needs_order',
+                               'Sth.C13_barrier_two_collectors_miss', 'Sth.C13_example_barrier', 'Sth.C13_barrier_replayFrom_nothing_missed',
+                               'Sth.C13_barrier_replay_nothing_missed', 'Sth.C13_example_barrier_replay'],
     runs=[dict(engine="seq", quick=300, thorough=10000, extra=["-profile", "c13"], nontrivial=["freelist-nonempty", "pgc-relocated"]),
           dict(engine="sched", quick=120, thorough=10000, extra=["-profile", "c13"], nontrivial=["freelist-nonempty", "freelist-model-agrees", "freelist-model-handover"])],
     rule="C04-style traces (small files, overwrites, removals, flushes, reopen, GC cycles with relocation and deadlines); after every "
@@ -207,14 +218,15 @@ PROPS["C13"] = dict(
 )
 
 PROPS["C11"] = dict(
-    modules=["Sth.Props.C01", "Sth.Props.C08", "Sth.Props.C11", "Sth.Props.C13H", "Sth.Props.C11D", "Sth.Props.C11E", "Sth.Props.C11F", "Sth.Props.C11G", "Sth.Props.C11P"],
+    modules=["Sth.Props.C01", "Sth.Props.C08", "Sth.Props.C11", "Sth.Props.C13H", "Sth.Props.C11D", "Sth.Props.C11E", "Sth.Props.C11F", "Sth.Props.C11G", "Sth.Props.C11P", "Sth.Props.C13B"],
     theorems=list(CORE_RL) + ["Sth.C11_index_file_released", "Sth.C11_index_released_stays", "Sth.C11_index_reap_free_file", "Sth.C11_primary_file_released",
                                 "Sth.C11_no_growth_index", "Sth.C11_no_growth_primary", "Sth.C11_relocation_pools_a_copy", "Sth.C11_reap_pools_at_most_two",
                                 "Sth.C11_fixed_point_primary", "Sth.C11_low_use_visit", "Sth.C11_primary_file_released_unconditional",
                                 "Sth.C11_low_use_drained_bound", "Sth.C11_low_use_round", "Sth.C11_index_cycle_visits_all", "Sth.C11_index_cycle_stale_resume",
                                 "Sth.C11_primary_files_short", "Sth.C11_visited_stable", "Sth.C11_primary_file_released_closed",
                                 "Sth.C11_cut_handover_pass_file_released",
-                                "Sth.C11_primary_files_short_all", "Sth.C11_visited_stable_all", "Sth.C11_primary_file_released_all"],
+                                "Sth.C11_primary_files_short_all", "Sth.C11_visited_stable_all", "Sth.C11_primary_file_released_all",
+                                "Sth.C13_barrier_nothing_missed", "Sth.C13_barrier_needs_lock_wait", "Sth.C13_barrier_needs_order"],
     runs=[dict(engine="seq", quick=200, thorough=10000, extra=["-profile", "c11"], nontrivial=["c11-dead-primary-files", "c11-unreferenced-index-files"]),
           dict(engine="crash", quick=48, thorough=600, extra=["-profile", "c11d"], nontrivial=["c11-drain-after-recovery"]),
           # collector cycles inside a Flush (the hand-over must stay behind the records it names): only the [C11] reading of the accounting
@@ -393,7 +405,8 @@ PROPS["C16"] = dict(
 # regenerated call-order / shape facts as obligations of the properties that rely on them
 PROPS["C03"]["facts"] = dict(modules=["Sth.Obligations.FactsC03"], theorems=["Sth.Obligations.C03_commit_order", "Sth.Obligations.C03_close_order"])
 PROPS["C05"]["facts"] = dict(modules=["Sth.Obligations.FactsC05", "Sth.Obligations.FactsC05b"], theorems=["Sth.Obligations.C05_mutators_atomic", "Sth.Obligations.C05_data_path_guarded"])
-PROPS["C13"]["facts"] = dict(modules=["Sth.Obligations.FactsC05"], theorems=["Sth.Obligations.C05_mutators_atomic"])
+PROPS["C13"]["facts"] = dict(modules=["Sth.Obligations.FactsC05", "Sth.Obligations.FactsC13"], theorems=["Sth.Obligations.C05_mutators_atomic", "Sth.Obligations.C13_flush_is_barrier"])
+PROPS["C11"]["facts"] = dict(modules=["Sth.Obligations.FactsC13"], theorems=["Sth.Obligations.C13_flush_is_barrier"])
 PROPS["C06"]["facts"] = dict(modules=["Sth.Obligations.FactsC05", "Sth.Obligations.FactsC05b"], theorems=["Sth.Obligations.C05_mutators_atomic", "Sth.Obligations.C05_data_path_guarded"])
 PROPS["C12"]["facts"] = dict(modules=["Sth.Obligations.FactsC12"], theorems=["Sth.Obligations.C12_flush_paths", "Sth.Obligations.C12_register_atomic"])
 PROPS["C14"]["facts"] = dict(modules=["Sth.Obligations.FactsC14"], theorems=["Sth.Obligations.C14_methods_atomic", "Sth.Obligations.C14_methods_single_section"])
